@@ -131,6 +131,7 @@ func main() {
 	cross := fs.Int("cross", 0, "cross-check every n-th unsat on the other solvers")
 	known := fs.String("known", "", "known findings JSON")
 	cpuprof := fs.String("cpuprofile", "", "write cpu profile")
+	replayFile := fs.String("replay", "", "replay file: re-run the single entry concretely with the recorded inputs and decisions")
 	fs.Parse(os.Args[2:])
 	if *cpuprof != "" {
 		f, _ := os.Create(*cpuprof)
@@ -212,6 +213,21 @@ func main() {
 	opts.Deadline = time.Now().Add(*timeout)
 	if *verbose {
 		opts.MaxViolations = 1000
+	}
+	if *replayFile != "" {
+		b, err := os.ReadFile(*replayFile)
+		if err != nil {
+			fmt.Fprintln(os.Stderr, "replay:", err)
+			os.Exit(2)
+		}
+		var rp ReplaySpec
+		if err := json.Unmarshal(b, &rp); err != nil {
+			fmt.Fprintln(os.Stderr, "replay:", err)
+			os.Exit(2)
+		}
+		opts.Replay = &rp
+		opts.MaxPaths = 1
+		*jobs, *workers = 1, 1
 	}
 	nw := *jobs
 	if *workers > 0 {
